@@ -68,13 +68,18 @@ CyclePreds(e) ==
                  Len(truth[c + 1]) - Max(last, epoch[c + 1]) > AutoD(c) + 2 * nsamp + npre, "C02_auto_gap_tail", ToString(c))
     : c \in Chans }
 
+\* From where on completeness is judged in the current epoch: one record after a reconfiguration (triggers emitted under
+\* the old settings may still cast their dead time), but from the very first searchable sample when the settings have been
+\* in force since the start of the stream (fresh start, or settings restored from the saved configuration): there is no
+\* earlier trigger then.
+JudgeFrom(c) == IF epoch[c + 1] = 0 THEN 0 ELSE epoch[c + 1] + nsamp
 \* completeness is judged with prims' (this cycle's primaries included)
 CompletePreds ==
   UNION {
     LET t == trig[c + 1] IN
-      WhenD(Plain(c) /\ t.edge /\ (\E p \in NewRange(c) : p >= epoch[c + 1] + nsamp /\ p >= npre /\ EdgeCrit(c, p)' /\ ~Covered(c, p)'),
+      WhenD(Plain(c) /\ t.edge /\ (\E p \in NewRange(c) : p >= JudgeFrom(c) /\ p >= npre /\ EdgeCrit(c, p)' /\ ~Covered(c, p)'),
             "C02_edge_complete", ToString(c))
-      \cup WhenD(Plain(c) /\ t.level /\ (\E p \in NewRange(c) : p >= epoch[c + 1] + nsamp /\ p >= npre /\ LevelCrit(c, p)' /\ ~Near(c, p)'),
+      \cup WhenD(Plain(c) /\ t.level /\ (\E p \in NewRange(c) : p >= JudgeFrom(c) /\ p >= npre /\ LevelCrit(c, p)' /\ ~Near(c, p)'),
             "C02_level_complete", ToString(c))
     : c \in Chans }
 
